@@ -65,10 +65,13 @@ def evaluate(f, present_normal, present_multi):
             return E.Ok(E.Tok("rtx"))
         if name == "begin_write":
             return E.Ok(E.Tok("wtx"))
-        if name == "list_tables":
-            return E.Ok(coll.seq("iter", [E.Tok("handle:" + n) for n in present_normal]))       # redb: normal tables only
-        if name == "list_multimap_tables":
-            return E.Ok(coll.seq("iter", [E.Tok("handle:" + n) for n in present_multi]))
+        if name in ("list_tables", "list_multimap_tables"):
+            # the old file (read transaction) holds the tables; the new file is fresh: asking *it* lists nothing
+            src = names[0] if names else ""
+            if src != "rtx":
+                log.append(("listed-the-new-file", name, src))
+                return E.Ok(coll.seq("iter", []))
+            return E.Ok(coll.seq("iter", [E.Tok("handle:" + n) for n in (present_normal if name == "list_tables" else present_multi)]))       # redb: list_tables = normal tables only
         if name == "name" and names:
             if names[0].startswith("handle:"):
                 return E.Tok("str:" + names[0][7:])
